@@ -18,11 +18,11 @@ import (
 )
 
 var (
-	reTag     = regexp.MustCompile(`^[a-zA-Z0-9_][a-zA-Z0-9._-]{0,127}$`)
-	reRepoEl  = `[a-z0-9]+(?:(?:\.|_|__|-+)[a-z0-9]+)*`
-	reRepo    = regexp.MustCompile(`^` + reRepoEl + `(?:/` + reRepoEl + `)*$`)
-	reDigest  = regexp.MustCompile(`^(sha256:[a-f0-9]{64}|sha384:[a-f0-9]{96}|sha512:[a-f0-9]{128})$`)
-	ociCodes  = map[string]bool{"BLOB_UNKNOWN": true, "BLOB_UPLOAD_INVALID": true, "BLOB_UPLOAD_UNKNOWN": true, "DIGEST_INVALID": true,
+	reTag    = regexp.MustCompile(`^[a-zA-Z0-9_][a-zA-Z0-9._-]{0,127}$`)
+	reRepoEl = `[a-z0-9]+(?:(?:\.|_|__|-+)[a-z0-9]+)*`
+	reRepo   = regexp.MustCompile(`^` + reRepoEl + `(?:/` + reRepoEl + `)*$`)
+	reDigest = regexp.MustCompile(`^(sha256:[a-f0-9]{64}|sha384:[a-f0-9]{96}|sha512:[a-f0-9]{128})$`)
+	ociCodes = map[string]bool{"BLOB_UNKNOWN": true, "BLOB_UPLOAD_INVALID": true, "BLOB_UPLOAD_UNKNOWN": true, "DIGEST_INVALID": true,
 		"MANIFEST_BLOB_UNKNOWN": true, "MANIFEST_INVALID": true, "MANIFEST_UNKNOWN": true, "NAME_INVALID": true, "NAME_UNKNOWN": true,
 		"SIZE_INVALID": true, "UNAUTHORIZED": true, "DENIED": true, "UNSUPPORTED": true, "TOOMANYREQUESTS": true}
 )
@@ -73,6 +73,9 @@ type MRepo struct {
 	orphans map[string]string
 	// subjects whose referrers response a collection may have dropped by policy although artifacts remain
 	respLost map[string]bool
+	// deleted manifests that an index listed as a child when they were deleted, or when the index was: the
+	// server may keep serving them from its in-memory child list (same family as orphans, for absent manifests)
+	ghosts map[string]bool
 }
 
 type Model struct {
@@ -92,7 +95,7 @@ func newModel(k Knobs) *Model {
 func (m *Model) repo(name string) *MRepo {
 	r, ok := m.repos[name]
 	if !ok {
-		r = &MRepo{name: name, blobs: map[string]*MBlob{}, mans: map[string]*MMan{}, tags: map[string]string{}, blobDeleted: map[string]bool{}, orphans: map[string]string{}, respLost: map[string]bool{}}
+		r = &MRepo{name: name, blobs: map[string]*MBlob{}, mans: map[string]*MMan{}, tags: map[string]string{}, blobDeleted: map[string]bool{}, orphans: map[string]string{}, respLost: map[string]bool{}, ghosts: map[string]bool{}}
 		m.repos[name] = r
 	}
 	return r
@@ -132,6 +135,9 @@ func (m *Model) clone() *Model {
 		for d, v := range r.orphans {
 			cr.orphans[d] = v
 		}
+		for d := range r.ghosts {
+			cr.ghosts[d] = true
+		}
 		for d := range r.respLost {
 			cr.respLost[d] = true
 		}
@@ -147,14 +153,14 @@ func (m *Model) clone() *Model {
 // manifests
 
 type manVerdict struct {
-	accept  bool   // model says the push must be acknowledged
-	either  bool   // both outcomes are legitimate (gray zone: collectable references etc.)
-	reason  string // why it must be refused
-	digest  string
-	mt      string
-	tag     string
-	view    manView
-	loose   string // a looser inconsistency that is logged, not flagged
+	accept bool   // model says the push must be acknowledged
+	either bool   // both outcomes are legitimate (gray zone: collectable references etc.)
+	reason string // why it must be refused
+	digest string
+	mt     string
+	tag    string
+	view   manView
+	loose  string // a looser inconsistency that is logged, not flagged
 }
 
 func normCT(ct string) string {
@@ -309,6 +315,7 @@ func (m *Model) applyManifestPut(repo string, v manVerdict, body []byte, now tim
 		r.mans[v.digest] = &MMan{data: body, mt: v.mt, mts: map[string]bool{v.mt: true}, view: v.view, born: r.blobs[v.digest].born, acked: now}
 	}
 	delete(r.orphans, v.digest)
+	delete(r.ghosts, v.digest)
 	// an artifact pushed for a subject whose manifest was deleted (its blob is still there) joins the known family at once
 	if s := v.view.subject; s != "" {
 		if _, isMan := r.mans[s]; !isMan {
